@@ -316,9 +316,11 @@ def qr_find_scp(asce, ctx, msg):
             rsp.message_id_being_responded_to = msg.message_id
             rsp.sop_class_uid = msg.sop_class_uid
             rsp.status = int(status)
-            rsp.data_set = dsutils.encode(data_set,
-                                          ctx.supported_ts.is_implicit_VR,
-                                          ctx.supported_ts.is_little_endian)
+            if data_set is not None:
+                # final response provided by the handler has no identifier
+                rsp.data_set = dsutils.encode(data_set,
+                                              ctx.supported_ts.is_implicit_VR,
+                                              ctx.supported_ts.is_little_endian)
             asce.send(rsp, ctx.id)
             if int(status) not in pending:
                 # final status is provided by the handler itself: it is the
